@@ -17,7 +17,7 @@ TIERS = {
     # DESIGN.md asks for 16 x (8000 + 1000); a value costs ~30 ms (4 codecs + monitors) and a
     # history ~0.6 s (two file systems, every path re-read after every operation), so the
     # counts are scaled to stay below 10 min per shard.
-    'thorough': dict(shards=16, values=5000, histories=400, steps=50, timeout_s=9000),
+    'thorough': dict(shards=16, values=4000, histories=320, steps=50, timeout_s=9000),
 }
 RULE = ('value case = one described serializable value (primitives incl. special floats and '
         'hostile strings, tuples, plain/symbolic lists and dicts with str and int keys, '
@@ -184,7 +184,9 @@ def check(codec, d, family, c=None, variant=0, wseed=0):
   Returns [(clause, detail)] (one entry per clause of that stage)."""
   count = (lambda n: None) if c is None else (lambda n: c.update([n]))
   v = S.build(d)
-  mapped = codec in ('json', 'json-str')
+  # pickle drops the value spec of a typed root (see ASSUMPTIONS): plain
+  # containers kept plain by that spec (frozen defaults) then become symbolic.
+  mapped = codec in ('json', 'json-str') or (codec == 'pickle' and d[0] in ('TD', 'TL'))
   nan = S.has_nan(d)
   # The laws compare the restored value with the original by pg.eq / pg.hash.
   # Where two identical constructions are not equal (or hash differently) to
